@@ -1159,6 +1159,13 @@ func (ex *Exec) abstractCall(s *State, fr *Frame, c *ssa.Call, fv FuncV, args []
 	default:
 		v = TupleV{Elems: results}
 	}
+	if v != nil {
+		// ghost: result and arguments of the most recent call of this abstract function (last("name"))
+		s.ghost["last."+name] = v
+		for i, a := range args {
+			s.ghost[fmt.Sprintf("lastarg%d.%s", i, name)] = a
+		}
+	}
 	k(s, fr, v)
 }
 
